@@ -98,6 +98,7 @@ pub struct LRec {
     pub actor: usize,
     pub order: usize,
     pub closed: bool,
+    pub closed_by: Option<OpRef>,
 }
 
 #[derive(Debug, Clone)]
@@ -131,12 +132,26 @@ pub struct ERec {
     pub local: bool,
     /// how many identical records are expected (bulk fills)
     pub count: usize,
+    /// operation that started the span / that ended it (for a span still open when its set was
+    /// collected: the collecting operation)
+    pub begin_op: OpRef,
+    pub end_op: OpRef,
+    /// creation order within the program
+    pub order: usize,
+    /// identity of the span set the record travelled in (0: a thread-safe span on its own)
+    pub set_uid: usize,
+    /// enclosing local span in the same set
+    pub local_parent: Option<String>,
+    /// index into the span's parent set (thread-safe spans)
+    pub copy: usize,
 }
 
 /// An attachment that travels separately from its target (by handle, or at the top level of a
 /// local scope): `target` is a thread-safe span.
 #[derive(Debug, Clone)]
 pub struct XAtt {
+    /// which copy of the target (index into the target's parent set)
+    pub copy: usize,
     pub root: String,
     pub trace: U128,
     pub target: String,
@@ -178,7 +193,8 @@ pub struct Model {
     pub xatts: Vec<XAtt>,
     pub ctxs: Vec<ExpObs>,
     pub closures: Vec<ExpClosure>,
-    pub elapsed: Vec<(OpRef, bool)>,
+    /// (observing op, creating op of the span if it is recording)
+    pub elapsed: Vec<(OpRef, Option<OpRef>)>,
     pub set_records: Vec<ExpSetRecords>,
     /// vector clocks per executed op
     pub clocks: HashMap<OpRef, Vec<u32>>,
@@ -232,7 +248,7 @@ struct Builder<'a> {
     program: &'a Program,
     m: Model,
     slots: HashMap<u32, String>,
-    sets: HashMap<u32, Vec<LRec>>,
+    sets: HashMap<u32, (usize, OpRef, Vec<LRec>)>,
     futs: HashMap<u32, Fut>,
     lines: Vec<Vec<Line>>,
     guards: Vec<Vec<G>>,
@@ -296,6 +312,7 @@ impl<'a> Builder<'a> {
                         actor,
                         order,
                         closed: false,
+                        closed_by: None,
                     });
                     line.open.push(name.to_string());
                     true
@@ -319,7 +336,7 @@ impl<'a> Builder<'a> {
                     LKind::Event(_) => String::new(),
                     _ => String::new(),
                 };
-                line.lrecs.push(LRec { name, parent, kind, props: vec![], by: at, actor, order, closed: true });
+                line.lrecs.push(LRec { name, parent, kind, props: vec![], by: at, actor, order, closed: true, closed_by: Some(at) });
                 true
             }
         }
@@ -340,9 +357,9 @@ impl<'a> Builder<'a> {
     }
 
     /// Turns the local records of a set into expected records under every sampled item.
-    fn emit_set(&mut self, lrecs: &[LRec], items: &[Item], submit: OpRef, into_set_records: Option<&mut Vec<ERec>>) {
+    fn emit_set(&mut self, lrecs: &[LRec], items: &[Item], submit: OpRef, collected: OpRef, set_uid: usize, into_set_records: Option<&mut Vec<ERec>>) {
         let mut out = Vec::new();
-        for it in items.iter().filter(|i| i.sampled) {
+        for (copy, it) in items.iter().enumerate().filter(|(_, i)| i.sampled) {
             // bulk-fill records are counted, not listed
             let mut fill: BTreeMap<(String, Option<String>), usize> = BTreeMap::new();
             for r in lrecs {
@@ -352,22 +369,41 @@ impl<'a> Builder<'a> {
                         continue;
                     }
                     let parent = r.parent.clone().map(PRef::Span).unwrap_or(it.parent.clone());
-                    let inset: Vec<Att> = lrecs
+                    let mut inset: Vec<Att> = r
+                        .props
                         .iter()
-                        .filter(|a| a.parent.as_deref() == Some(r.name.as_str()))
-                        .filter_map(|a| att_of(a, submit))
+                        .enumerate()
+                        .map(|(i, (k, v))| Att {
+                            kind: AttKind::Prop(k.clone(), v.clone()),
+                            route: Route::Creation,
+                            by: r.by,
+                            submit,
+                            order: i,
+                        })
                         .collect();
+                    inset.extend(
+                        lrecs
+                            .iter()
+                            .filter(|a| a.parent.as_deref() == Some(r.name.as_str()))
+                            .filter_map(|a| att_of(a, submit)),
+                    );
                     out.push(ERec {
                         trace: it.trace,
                         root: it.root.clone(),
                         name: r.name.clone(),
                         parent,
-                        props: r.props.clone(),
+                        props: vec![],
                         inset,
                         submit,
                         is_root: false,
                         local: true,
                         count: 1,
+                        begin_op: r.by,
+                        end_op: r.closed_by.unwrap_or(collected),
+                        order: r.order,
+                        set_uid,
+                        local_parent: r.parent.clone(),
+                        copy: 0,
                     });
                 }
             }
@@ -383,6 +419,12 @@ impl<'a> Builder<'a> {
                     is_root: false,
                     local: true,
                     count,
+                    begin_op: submit,
+                    end_op: submit,
+                    order: 0,
+                    set_uid,
+                    local_parent: None,
+                    copy: 0,
                 });
             }
             // top-level attachments travel to the thread-safe span the set hangs under
@@ -390,7 +432,7 @@ impl<'a> Builder<'a> {
                 if let PRef::Span(target) = &it.parent {
                     for a in lrecs.iter().filter(|a| a.parent.is_none()) {
                         if let Some(att) = att_of(a, submit) {
-                            self.m.xatts.push(XAtt { root: it.root.clone(), trace: it.trace, target: target.clone(), att });
+                            self.m.xatts.push(XAtt { copy, root: it.root.clone(), trace: it.trace, target: target.clone(), att });
                         }
                     }
                 }
@@ -416,6 +458,7 @@ impl<'a> Builder<'a> {
                             line.open.pop();
                             if let Some(r) = line.lrecs.iter_mut().rev().find(|r| r.name == name) {
                                 r.closed = true;
+                                r.closed_by = Some(at);
                             }
                         } else {
                             self.m.ill_formed.push(format!("{at:?}: local span {name} closed out of order"));
@@ -444,7 +487,7 @@ impl<'a> Builder<'a> {
         if s.is_root {
             self.m.root_finish.insert(s.name.clone(), at);
         }
-        for it in s.items.iter().filter(|i| i.sampled) {
+        for (copy, it) in s.items.iter().enumerate().filter(|(_, i)| i.sampled) {
             let inset: Vec<Att> = s
                 .props
                 .iter()
@@ -468,6 +511,12 @@ impl<'a> Builder<'a> {
                 is_root: s.is_root,
                 local: false,
                 count: 1,
+                begin_op: s.created,
+                end_op: at,
+                order: 0,
+                set_uid: 0,
+                local_parent: None,
+                copy,
             });
         }
     }
@@ -510,9 +559,44 @@ impl<'a> Builder<'a> {
         }
         for _ in 0..opened {
             if let Some((lrecs, Some(items))) = self.pop_guard(actor, at) {
-                self.emit_set(&lrecs, &items, at, None);
+                { let uid = self.next_order(); self.emit_set(&lrecs, &items, at, at, uid, None); }
             }
         }
+    }
+
+    fn root_from(&mut self, actor: usize, idx: usize, slot: u32, name: &str, ctx: Option<(U128, PRef, bool)>) {
+        let at = (actor, idx);
+        self.m.ctxs.push(ExpObs {
+            at,
+            label: String::new(),
+            ctx: match &ctx {
+                Some((t, s, f)) => ExpCtx::Some { trace: *t, span: s.clone(), sampled: *f },
+                None => ExpCtx::None,
+            },
+        });
+        let s = match ctx {
+            Some((trace, parent, sampled)) => MSpan {
+                name: name.to_string(),
+                items: vec![Item { trace, root: name.to_string(), parent, sampled }],
+                is_root: true,
+                noop: false,
+                created: at,
+                finished: None,
+                cancelled: None,
+                props: vec![],
+            },
+            None => MSpan {
+                name: format!("noop@{}.{}", actor, idx),
+                items: vec![],
+                is_root: false,
+                noop: true,
+                created: at,
+                finished: None,
+                cancelled: None,
+                props: vec![],
+            },
+        };
+        self.new_span(slot, s);
     }
 
     fn apply(&mut self, actor: usize, idx: usize, op: &Op) {
@@ -588,6 +672,20 @@ impl<'a> Builder<'a> {
                 };
                 self.new_span(*slot, s);
             }
+            Op::RootFromSpan { slot, name, of, .. } => {
+                let ctx = match self.span(*of) {
+                    Some(s) if !s.noop => s.items.first().map(|it| (it.trace, PRef::Span(s.name.clone()), it.sampled)),
+                    _ => None,
+                };
+                self.root_from(actor, idx, *slot, name, ctx);
+            }
+            Op::RootFromLocal { slot, name, .. } => {
+                let ctx = match self.current_ctx(actor) {
+                    ExpCtx::Some { trace, span, sampled } => Some((trace, span, sampled)),
+                    _ => None,
+                };
+                self.root_from(actor, idx, *slot, name, ctx);
+            }
             Op::Noop { slot } => {
                 let name = format!("noop@{}.{}", actor, idx);
                 let s = MSpan {
@@ -613,8 +711,9 @@ impl<'a> Builder<'a> {
                 }
                 for (k, v) in props {
                     let order = self.next_order();
-                    for it in s.items.iter().filter(|i| i.sampled) {
+                    for (copy, it) in s.items.iter().enumerate().filter(|(_, i)| i.sampled) {
                         self.m.xatts.push(XAtt {
+                            copy,
                             root: it.root.clone(),
                             trace: it.trace,
                             target: s.name.clone(),
@@ -640,8 +739,9 @@ impl<'a> Builder<'a> {
                     return;
                 }
                 let order = self.next_order();
-                for it in s.items.iter().filter(|i| i.sampled) {
+                for (copy, it) in s.items.iter().enumerate().filter(|(_, i)| i.sampled) {
                     self.m.xatts.push(XAtt {
+                        copy,
                         root: it.root.clone(),
                         trace: it.trace,
                         target: s.name.clone(),
@@ -682,7 +782,7 @@ impl<'a> Builder<'a> {
                 self.m.ctxs.push(ExpObs { at, label: String::new(), ctx });
             }
             Op::Elapsed { slot } => {
-                let some = self.span(*slot).map_or(false, |s| !s.noop);
+                let some = self.span(*slot).filter(|s| !s.noop).map(|s| s.created);
                 self.m.elapsed.push((at, some));
             }
             Op::SetLocalParent { slot } => {
@@ -707,17 +807,19 @@ impl<'a> Builder<'a> {
             }
             Op::Pop => {
                 if let Some((lrecs, Some(items))) = self.pop_guard(actor, at) {
-                    self.emit_set(&lrecs, &items, at, None);
+                    { let uid = self.next_order(); self.emit_set(&lrecs, &items, at, at, uid, None); }
                 }
             }
             Op::LcCollect { set } => match self.guards[actor].last() {
                 Some(G::Line) if self.lines[actor].last().map_or(false, |l| l.token.is_none()) => {
                     let (lrecs, _) = self.pop_guard(actor, at).unwrap();
-                    self.sets.insert(*set, lrecs);
+                    let uid = self.next_order();
+                    self.sets.insert(*set, (uid, at, lrecs));
                 }
                 Some(G::NoopGuard) => {
                     self.guards[actor].pop();
-                    self.sets.insert(*set, vec![]);
+                    let uid = self.next_order();
+                    self.sets.insert(*set, (uid, at, vec![]));
                 }
                 _ => self.m.ill_formed.push(format!("{at:?}: collect without a local collector on top")),
             },
@@ -738,25 +840,25 @@ impl<'a> Builder<'a> {
                 self.m.ctxs.push(ExpObs { at, label: String::new(), ctx });
             }
             Op::PushChildSpans { set, slot } => {
-                let Some(lrecs) = self.sets.get(set).cloned() else {
+                let Some((uid, collected, lrecs)) = self.sets.get(set).cloned() else {
                     self.m.ill_formed.push(format!("{at:?}: no set {set}"));
                     return;
                 };
                 let tok = self.span(*slot).filter(|s| !s.noop).map(|s| s.issue());
                 if let Some(items) = tok {
                     if !lrecs.is_empty() {
-                        self.emit_set(&lrecs, &items, at, None);
+                        self.emit_set(&lrecs, &items, at, collected, uid, None);
                     }
                 }
             }
             Op::ToRecords { set, trace, span_id } => {
-                let Some(lrecs) = self.sets.get(set).cloned() else {
+                let Some((uid, collected, lrecs)) = self.sets.get(set).cloned() else {
                     self.m.ill_formed.push(format!("{at:?}: no set {set}"));
                     return;
                 };
                 let items = vec![Item { trace: *trace, root: String::new(), parent: PRef::Remote(*span_id), sampled: true }];
                 let mut v = Vec::new();
-                self.emit_set(&lrecs, &items, at, Some(&mut v));
+                self.emit_set(&lrecs, &items, at, collected, uid, Some(&mut v));
                 self.m.set_records.push(ExpSetRecords { at, recs: v });
             }
             Op::DropSet { set } => {
@@ -1027,6 +1129,7 @@ impl<'a> Builder<'a> {
                                 actor,
                                 order,
                                 closed: true,
+                                closed_by: Some(at),
                             });
                         }
                     }
@@ -1138,7 +1241,7 @@ pub fn build(program: &Program, ex: &Execution) -> Model {
                         b.fill_lines[a] = 0;
                         while !b.guards[a].is_empty() {
                             if let Some((lrecs, Some(items))) = b.pop_guard(a, at) {
-                                b.emit_set(&lrecs, &items, at, None);
+                                { let uid = b.next_order(); b.emit_set(&lrecs, &items, at, at, uid, None); }
                             }
                         }
                     }
